@@ -742,7 +742,7 @@ func main() {
 	}
 	run.Notes["child_process_runs"] = childStats
 
-	// ===== 5. glob.cache.size: accepted => runnable =====
+	// ===== 5. glob.cache.size (sizes <= 0 included): rejected by Load, or accepted and runnable =====
 	genGlobCases(run, r)
 
 	// ===== 6. parseKVSlice, lex and the library models =====
@@ -1064,7 +1064,13 @@ func genGlobCases(run *vh.Run, r *rand.Rand) {
 		var sampleCalls []string
 		var gc *route.GlobCache
 		impl := ""
-		if p, _ := vh.Recover(func() { gc = route.NewGlobCache(configured) }); p {
+		if !accepted {
+			// config.Load returned an error: there is no configuration to run
+			impl = vh.Err(1)
+			if res.panicked {
+				impl = vh.Panic
+			}
+		} else if p, _ := vh.Recover(func() { gc = route.NewGlobCache(configured) }); p {
 			impl = vh.Panic
 		}
 		ncalls := r.Intn(9)
@@ -1080,7 +1086,7 @@ func genGlobCases(run *vh.Run, r *rand.Rand) {
 			_, cerr := glob.Compile(pat)
 			calls = append(calls, vh.Pair(vh.HxS(pat), vh.Bool(cerr == nil)))
 			sampleCalls = append(sampleCalls, pat)
-			if impl == vh.Panic || stopped {
+			if impl != "" || stopped {
 				continue
 			}
 			var gerr error
